@@ -173,6 +173,19 @@ fn count(log: &LeafLog, cs: u8) -> usize {
 fn run_case(case: &Case) -> Outcome {
     let log1: LeafLog = Default::default();
     let log2: LeafLog = Default::default();
+    // a reload handle whose collector has been dropped. Made BEFORE the collector under test
+    // (whose registration then prunes the dead one from the registry's list), and as a real
+    // Dispatch only in histories that use it: otherwise the process would always have had two
+    // dispatchers, and a defect in the single-dispatcher paths could never show
+    let dead_handle = {
+        let (l, h) = reload::Subscriber::new(Some(LevelFilter::INFO));
+        if case.ops.iter().any(|o| matches!(o, Op::DeadHandleReload { .. })) {
+            drop(Dispatch::new(Registry::default().with(l)));
+        } else {
+            drop(l);
+        }
+        Arc::new(h)
+    };
     let (dispatch, handle) = match case.kind {
         Kind::GlobalInner => {
             let (l, h) = reload::Subscriber::new(case.initial.gfilter().map(|g| g.build()));
@@ -193,12 +206,6 @@ fn run_case(case: &Case) -> Outcome {
     let handle = Arc::new(handle);
     let mut dispatch = Some(dispatch);
     let _bystander_alive = if case.bystander { Some(Dispatch::new(Registry::default().with(RecLeaf::new(Default::default())))) } else { None };
-    // a reload handle whose collector has been dropped
-    let dead_handle = {
-        let (l, h) = reload::Subscriber::new(Some(LevelFilter::INFO));
-        drop(Dispatch::new(Registry::default().with(l)));
-        Arc::new(h)
-    };
     let mut st: Stepper<TState> = Stepper::new(2);
     for t in 0..2 {
         let d = dispatch.clone().unwrap();
